@@ -65,7 +65,8 @@ func ZZH_C13_single_key() {
 		k = 4
 	}
 	for step := 0; step < k; step++ {
-		switch zz.Choice("op", 8) {
+		op := zz.Choice("op", 8)
+		switch op {
 		case 7: // a write that is reverted at once (a failing transaction): snapshot, SetState, revert
 			id := l.Snapshot()
 			l.SetState(addr, key, zzValue("tv"), nil)
@@ -114,6 +115,11 @@ func ZZH_C13_single_key() {
 			acc, root := l.FlushDirtyData()
 			pending = &pendingCommit{h: height, accounts: acc, root: root}
 			snapModel, snapIDs = nil, nil
+		}
+		// (at a block boundary the read-back is optional: the first touch of the account in the new
+		// block may then be the next operation itself, e.g. inside a snapshot that is reverted)
+		if (op == 2 || op == 3 || op == 6) && step+1 < k && zz.Choice("readBackAtBoundary", 2) == 0 {
+			continue
 		}
 		ok, got := l.GetState(addr, key)
 		zz.Assert("C13.read-latest", zzSameRead(ok, got, model))
